@@ -18,13 +18,33 @@ import (
 // ---------------------------------------------------------------------------
 // R2 / R3: LoadCheckpoint
 
-func (st *state) loader(fn, fetch, clear *core.Fn) {
+func (st *state) loader(load, fetch, clear *core.Fn) {
 	c := st.c
+	fn := load // the function that scans the databases: LoadCheckpoint or a helper it calls
 	info := fn.Pkg.TypesInfo
+	isFetch := func(_ *ast.CallExpr, callee types.Object) bool { return callee == types.Object(fetch.Obj) }
+	var viaCall *ast.CallExpr // the call of the helper in LoadCheckpoint
+	if len(core.Calls(load.Decl.Body, info, isFetch)) == 0 {
+		for _, call := range core.Calls(load.Decl.Body, info, func(*ast.CallExpr, types.Object) bool { return true }) {
+			if h := c.FnOf(core.CalleeFunc(info, call)); h != nil && h.Decl.Body != nil && h.Pkg.TypesInfo == info && h.Obj != fetch.Obj && len(core.Calls(h.Decl.Body, info, isFetch)) > 0 {
+				fn, viaCall = h, call
+			}
+		}
+	}
+	// lift: an expression of the helper in the terms of LoadCheckpoint (parameters -> arguments)
+	lift := func(e ast.Expr) ast.Expr {
+		if viaCall == nil {
+			return e
+		}
+		if j := paramIndex(info, fn, e); j >= 0 && j < len(viaCall.Args) {
+			return viaCall.Args[j]
+		}
+		return nil
+	}
 	body := fn.Decl.Body
 	g := cfgq.Of(c.Program, fn)
 	x := tt.New(g)
-	calls := core.Calls(body, info, func(_ *ast.CallExpr, callee types.Object) bool { return callee == types.Object(fetch.Obj) })
+	calls := core.Calls(body, info, isFetch)
 	if len(calls) != 1 {
 		c.Undecidedf("R2.newest", "LoadCheckpoint/fetch", fn.Decl.Pos(), "expected one call of fetchCheckpoint, found %d", len(calls))
 		return
@@ -46,7 +66,8 @@ func (st *state) loader(fn, fetch, clear *core.Fn) {
 	}
 	// the loop ranges over the result of ParseKeyspace and looks at every database
 	okList := false
-	if d, ok := tt.SingleDef(info, body, loop.X); ok && d.Index == 0 {
+	mpExpr := lift(loop.X)
+	if d, ok := tt.SingleDef(info, load.Decl.Body, mpExpr); mpExpr != nil && ok && d.Index == 0 {
 		if call, ok := ast.Unparen(d.Rhs).(*ast.CallExpr); ok && core.IsFunc(core.CalleeFunc(info, call), pkgUtils, "", "ParseKeyspace") {
 			okList = true
 		}
@@ -172,7 +193,45 @@ func (st *state) loader(fn, fetch, clear *core.Fn) {
 		return
 	}
 
-	// ---- R3
+	srcExpr, nameExpr := ast.Expr(nil), ast.Expr(nil)
+	if len(calls[0].Args) == 4 {
+		srcExpr, nameExpr = lift(calls[0].Args[0]), lift(calls[0].Args[3])
+	}
+	// ---- R3 (in LoadCheckpoint: the recorded values come back from the helper)
+	if viaCall != nil {
+		var hret *ast.ReturnStmt
+		core.Inspect(body, func(n ast.Node) bool {
+			if r, ok := n.(*ast.ReturnStmt); ok && len(r.Results) > 1 && core.IsNil(info, r.Results[len(r.Results)-1]) {
+				if _, isConst := core.IntConst(info, r.Results[1]); !isConst {
+					hret = r
+				}
+			}
+			return true
+		})
+		lp, _ := cfgq.Of(c.Program, load).Find(viaCall)
+		las, ok := lp.Node().(*ast.AssignStmt)
+		if hret == nil || !ok || len(las.Rhs) != 1 || len(las.Lhs) != len(hret.Results) {
+			c.Undecidedf("R3.gate", "LoadCheckpoint/result", viaCall.Pos(), "cannot relate the results of %s to the variables of LoadCheckpoint", fn.Decl.Name.Name)
+			return
+		}
+		var lrec [4]types.Object
+		for k := range rec {
+			for i, r := range hret.Results {
+				if localObj(info, r) == rec[k] {
+					lrec[k] = localObj(info, las.Lhs[i])
+				}
+			}
+			if lrec[k] == nil {
+				c.Undecidedf("R3.gate", "LoadCheckpoint/result", viaCall.Pos(), "%s does not return the recorded %s", fn.Decl.Name.Name, recName[k])
+				return
+			}
+		}
+		copy(rec, lrec[:])
+		body = load.Decl.Body
+		g = cfgq.Of(c.Program, load)
+		x = tt.New(g)
+		fn = load
+	}
 	rets := successReturns(info, body)
 	if len(rets) == 0 {
 		c.Undecidedf("R3.gate", "LoadCheckpoint/result", fn.Decl.Pos(), "no success return")
@@ -310,10 +369,10 @@ func (st *state) loader(fn, fetch, clear *core.Fn) {
 		n := 0
 		for _, call := range core.Calls(body, info, func(_ *ast.CallExpr, callee types.Object) bool { return callee == types.Object(clear.Obj) }) {
 			n++
-			okArgs := len(call.Args) == 6 && localObj(info, call.Args[2]) == rec[3] && pat.Same(info, call.Args[3], loop.X)
+			okArgs := len(call.Args) == 6 && localObj(info, call.Args[2]) == rec[3] && mpExpr != nil && pat.Same(info, call.Args[3], mpExpr)
 			okSrc := false
-			if len(calls[0].Args) == 4 && len(call.Args) == 6 {
-				okSrc = pat.Same(info, call.Args[4], calls[0].Args[0]) && pat.Same(info, call.Args[5], calls[0].Args[3])
+			if srcExpr != nil && nameExpr != nil && len(call.Args) == 6 {
+				okSrc = pat.Same(info, call.Args[4], srcExpr) && pat.Same(info, call.Args[5], nameExpr)
 			}
 			cp, _ := g.Find(call)
 			dom := g.Path(cfgq.Query{From: g.Entry(), Target: isRet, Avoid: func(nd ast.Node) bool { return nd == cp.Node() }}) == nil
